@@ -1,0 +1,24 @@
+//go:build verif
+
+package util
+
+import (
+	"fmt"
+
+	"gopkg.in/yaml.v3"
+)
+
+// Ghost lemma functions for govc: never called, compiled only with -tags verif.
+
+// lemmaC10Rat: every fraction reads back from its printed form as the same fraction.
+func lemmaC10Rat(r Rat) (Rat, error) {
+	return ParseRat(r.String())
+}
+
+// lemmaC10RatYAML: a scalar node carrying the printed form decodes to the same fraction.
+func lemmaC10RatYAML(r Rat) (Rat, error) {
+	var out Rat
+	v, _ := r.MarshalYAML()
+	err := out.UnmarshalYAML(&yaml.Node{Kind: yaml.ScalarNode, Value: fmt.Sprint(v)})
+	return out, err
+}
